@@ -148,32 +148,46 @@ def run(ctx, out, tier):
     n += explicit_err(ctx, out, "check-lua", ctx.validator_bodies("check-lua"), r"^str::is_empty\(str::trim\(", True, "an empty script path", "empty-path")
     n += explicit_err(ctx, out, "check-ai", ctx.validator_bodies("check-ai"), r"^str::is_empty\(str::trim\(", True, "an empty condition", "empty-condition")
     n += explicit_err(ctx, out, "check-ai", ctx.validator_bodies("check-ai") + [b for b in bodies if "check_ai" in b.id], r"^str::is_empty\(.*expose_secret", True, "a missing API key", "empty-key")
-    n += explicit_err(ctx, out, "line-count", ctx.validator_bodies("line-count"), r"^str::is_empty\(str::trim\(", True, "a comparator without a number", "missing-number")
-    # line-count: no comparator at all -> Err (the else of the prefix chain)
-    pcs = [b for b in ctx.validator_bodies("line-count") if b.id.endswith("parse_constraint")]
-    ok = False
-    for b in ctx.views(pcs):
-        for bi, j, s in b.assigns():
-            rv = s["rv"]
-            if rv["k"] == "agg" and rv.get("variant") == "Err":
-                gs = util.guards(ctx, b, bi)
-                sp = [(vals, e) for br, vals, e in gs if e[0] == "discr" and find_calls(e, r"<impl str>::strip_prefix$")]
-                if len(sp) >= 5 and all(1 not in vals for vals, e in sp):
-                    ok = True
-                # table idiom: the Err is built when the scan of the comparator table (the loop that
-                # holds the one strip_prefix test) is exhausted without a hit
-                cfg = cfg_of(b)
-                sps = [x for x, t2 in b.calls() if callee_matches(t2, r"<impl str>::strip_prefix$")]
-                for br, vals, e in gs:
-                    if e[0] == "discr" and e[1][0] == "call" and re.search(r"Iterator>?::next$", e[1][1]) and vals == {0} and len(sps) == 1:
-                        nb = e[1][3] if len(e[1]) > 3 else None
-                        h = cfg.innermost_loop(nb) if nb is not None else None
-                        if h is not None and sps[0] in cfg.loops()[h] and util.arm_only_err(ctx, b, br, vals) is not None:
-                            ok = True
-    if ok:
-        n += 1
+    # line-count: malformed expressions (no comparator, unknown comparator, no number, trailing text) on the
+    # small model shared with C09 (concrete attribute strings): each must end in an error. When the model
+    # cannot follow the code, the structural forms below decide the two explicit `Err` exits.
+    from rules.C09 import check_ops_model
+    tr = out.trial()
+    try:
+        lc = check_ops_model(ctx, tr, rule="C13.linecount", only_malformed=True)
+    except Exception as e:      # noqa: BLE001
+        ctx.view_fallbacks.append("C13.linecount: small-model analysis failed (%s: %s)" % (type(e).__name__, e))
+        lc = None
+    if lc is not None:
+        out.adopt(tr)
+        n += 2 if lc else 0
     else:
-        out.viol("C13.sites", "C13.sites|line-count|missing-comparator", "-", "no `Err` for a line-count expression that starts with none of the five comparators")
+        n += explicit_err(ctx, out, "line-count", ctx.validator_bodies("line-count"), r"^str::is_empty\(str::trim\(", True, "a comparator without a number", "missing-number")
+        # line-count: no comparator at all -> Err (the else of the prefix chain)
+        pcs = [b for b in ctx.validator_bodies("line-count") if b.id.endswith("parse_constraint")]
+        ok = False
+        for b in ctx.views(pcs):
+            for bi, j, s in b.assigns():
+                rv = s["rv"]
+                if rv["k"] == "agg" and rv.get("variant") == "Err":
+                    gs = util.guards(ctx, b, bi)
+                    sp = [(vals, e) for br, vals, e in gs if e[0] == "discr" and find_calls(e, r"<impl str>::strip_prefix$")]
+                    if len(sp) >= 5 and all(1 not in vals for vals, e in sp):
+                        ok = True
+                    # table idiom: the Err is built when the scan of the comparator table (the loop that
+                    # holds the one strip_prefix test) is exhausted without a hit
+                    cfg = cfg_of(b)
+                    sps = [x for x, t2 in b.calls() if callee_matches(t2, r"<impl str>::strip_prefix$")]
+                    for br, vals, e in gs:
+                        if e[0] == "discr" and e[1][0] == "call" and re.search(r"Iterator>?::next$", e[1][1]) and vals == {0} and len(sps) == 1:
+                            nb = e[1][3] if len(e[1]) > 3 else None
+                            h = cfg.innermost_loop(nb) if nb is not None else None
+                            if h is not None and sps[0] in cfg.loops()[h] and util.arm_only_err(ctx, b, br, vals) is not None:
+                                ok = True
+        if ok:
+            n += 1
+        else:
+            out.viol("C13.sites", "C13.sites|line-count|missing-comparator", "-", "no `Err` for a line-count expression that starts with none of the five comparators")
     # the severity of a block is evaluated (and its Err propagated) at every diagnostic
     from rules.C10 import violation_sites
     sev = 0
